@@ -151,21 +151,33 @@ class Watchdog(threading.Thread):
         self.scratch = scratch
 
     def run(self):
+        total_limit_kb = int(os.environ.get("VERIF_TOTAL_RSS_GB", "50")) * 1024 * 1024
         while not self.stop:
             try:
                 out = subprocess.run(["ps", "-eo", "pid,rss,comm,args"], capture_output=True, text=True).stdout
+                own = []
                 for line in out.splitlines()[1:]:
                     parts = line.split(None, 3)
                     if len(parts) < 4:
                         continue
                     pid, rss, comm, args = parts
-                    if comm.startswith("cbmc") and int(rss) > RSS_LIMIT_KB:
+                    if not comm.startswith("cbmc"):
+                        continue
+                    mine = bool(self.scratch) and self.scratch in args
+                    if mine:
+                        own.append((int(rss), int(pid), args))
+                    if int(rss) > RSS_LIMIT_KB:
                         # protect the box from any runaway cbmc, but only report our own
-                        if self.scratch and self.scratch in args:
+                        if mine:
                             self.killed.append(args[-200:])
                             os.kill(int(pid), signal.SIGKILL)
                         elif int(rss) > 2 * RSS_LIMIT_KB:
                             os.kill(int(pid), signal.SIGKILL)
+                # aggregate guard: 62 GB box without swap
+                if own and sum(r for r, _, _ in own) > total_limit_kb:
+                    r, pid, args = max(own)
+                    self.killed.append("aggregate RSS guard: " + args[-200:])
+                    os.kill(pid, signal.SIGKILL)
             except Exception:
                 pass
             time.sleep(2)
